@@ -202,6 +202,265 @@ func dispCallKeyed(fd *ast.FuncDecl) bool {
 	return probe != "" && probe == store && keyFromAllRequired
 }
 
+// ---------------------------------------------------------------------------------------------
+// lock discipline: positions of lock calls, table writes, cache probes / stores inside one function
+
+func dispIsLockCall(n ast.Node, names ...string) bool {
+	ce, ok := n.(*ast.CallExpr)
+	if !ok || len(ce.Args) != 0 {
+		return false
+	}
+	sel, ok := ce.Fun.(*ast.SelectorExpr)
+	if !ok {
+		return false
+	}
+	for _, nm := range names {
+		if sel.Sel.Name == nm {
+			return true
+		}
+	}
+	return false
+}
+
+type dispPositions struct {
+	locks, rlocks, unlocks []token.Pos // non-deferred Lock / RLock / Unlock+RUnlock calls
+	deferredUnlock         bool
+	probes, stores         []token.Pos // reads / writes of x.cache[...]
+	tableWrites            []token.Pos // x.methods[...] = …, delete(x.methods, …), c.Primary/Before/After/Wrap = …, x.Combinations = …
+	resets                 []token.Pos // cache resets (direct, or the call of a helper that resets, two levels deep)
+}
+
+func dispScan(fd *ast.FuncDecl, funcs dispFuncs) dispPositions {
+	var p dispPositions
+	deferred := map[ast.Node]bool{}
+	ast.Inspect(fd.Body, func(n ast.Node) bool {
+		if ds, ok := n.(*ast.DeferStmt); ok {
+			deferred[ds.Call] = true
+			if dispIsLockCall(ds.Call, "Unlock", "RUnlock") {
+				p.deferredUnlock = true
+			}
+		}
+		return true
+	})
+	storeIdx := map[ast.Node]bool{}
+	ast.Inspect(fd.Body, func(n ast.Node) bool {
+		switch tn := n.(type) {
+		case *ast.CallExpr:
+			if deferred[tn] {
+				return true
+			}
+			switch {
+			case dispIsLockCall(tn, "Lock"):
+				p.locks = append(p.locks, tn.Pos())
+			case dispIsLockCall(tn, "RLock"):
+				p.rlocks = append(p.rlocks, tn.Pos())
+			case dispIsLockCall(tn, "Unlock", "RUnlock"):
+				p.unlocks = append(p.unlocks, tn.Pos())
+			}
+			if id, ok := tn.Fun.(*ast.Ident); ok && id.Name == "delete" && 0 < len(tn.Args) && dispIsField(tn.Args[0], "methods") {
+				p.tableWrites = append(p.tableWrites, tn.Pos())
+			}
+			if id, ok := tn.Fun.(*ast.Ident); ok && id.Name == "clear" && len(tn.Args) == 1 && dispIsField(tn.Args[0], "cache") {
+				p.resets = append(p.resets, tn.Pos())
+			}
+			// a helper of the package that resets the cache
+			var name string
+			switch f := tn.Fun.(type) {
+			case *ast.Ident:
+				name = f.Name
+			case *ast.SelectorExpr:
+				name = f.Sel.Name
+			}
+			var matches []*ast.FuncDecl
+			for k, cand := range funcs {
+				if k == name || strings.HasSuffix(k, "."+name) {
+					matches = append(matches, cand)
+				}
+			}
+			if len(matches) == 1 && matches[0] != fd && dispResets(matches[0], funcs, "cache", false, 1) {
+				p.resets = append(p.resets, tn.Pos())
+			}
+		case *ast.AssignStmt:
+			for i, lhs := range tn.Lhs {
+				if ix, ok := lhs.(*ast.IndexExpr); ok {
+					if dispIsField(ix.X, "cache") {
+						p.stores = append(p.stores, tn.Pos())
+						storeIdx[ix] = true
+					}
+					if dispIsField(ix.X, "methods") {
+						p.tableWrites = append(p.tableWrites, tn.Pos())
+					}
+				}
+				if sel, ok := lhs.(*ast.SelectorExpr); ok {
+					switch sel.Sel.Name {
+					case "Primary", "Before", "After", "Wrap", "Combinations":
+						p.tableWrites = append(p.tableWrites, tn.Pos())
+					case "cache":
+						if i < len(tn.Rhs) {
+							switch r := tn.Rhs[i].(type) {
+							case *ast.CompositeLit:
+								p.resets = append(p.resets, tn.Pos())
+							case *ast.CallExpr:
+								if id, ok := r.Fun.(*ast.Ident); ok && id.Name == "make" {
+									p.resets = append(p.resets, tn.Pos())
+								}
+							}
+						}
+					}
+				}
+			}
+		case *ast.IndexExpr:
+			if dispIsField(tn.X, "cache") && !storeIdx[tn] {
+				p.probes = append(p.probes, tn.Pos())
+			}
+		}
+		return true
+	})
+	return p
+}
+
+// all positions lie in one critical section: after the first Lock of the function and before the
+// first non-deferred Unlock that follows that Lock (the end of the function with a deferred Unlock)
+func dispInOneSection(p dispPositions, pos ...[]token.Pos) bool {
+	if len(p.locks) == 0 {
+		return false
+	}
+	lock := p.locks[0]
+	end := token.Pos(1 << 40)
+	for _, u := range p.unlocks {
+		if lock < u && u < end {
+			end = u
+		}
+	}
+	if end == token.Pos(1<<40) && !p.deferredUnlock {
+		return false // never unlocked here: not a critical section of this function
+	}
+	n := 0
+	for _, ps := range pos {
+		for _, x := range ps {
+			n++
+			if x < lock || end < x {
+				return false
+			}
+		}
+	}
+	return 0 < n
+}
+
+// the function of the package that stores into x.cache[...]
+func dispCacheStoreFunc(funcs dispFuncs) *ast.FuncDecl {
+	var names []string
+	for k := range funcs {
+		names = append(names, k)
+	}
+	sort.Strings(names)
+	for _, k := range names {
+		if p := dispScan(funcs[k], dispFuncs{}); 0 < len(p.stores) {
+			return funcs[k]
+		}
+	}
+	return nil
+}
+
+// dispFillUnderOneLock: the effective method is looked up, built and stored inside one critical
+// section held with the write lock: a probe of x.cache precedes the store with no Unlock / RUnlock
+// between them, and the lock taken last before the store is Lock, not RLock.
+func dispFillUnderOneLock(funcs dispFuncs) bool {
+	fd := dispCacheStoreFunc(funcs)
+	if fd == nil {
+		return false
+	}
+	p := dispScan(fd, funcs)
+	for _, st := range p.stores {
+		ok := false
+		for _, pr := range p.probes {
+			if st <= pr {
+				continue
+			}
+			clean := true
+			for _, u := range p.unlocks {
+				if pr < u && u < st {
+					clean = false
+				}
+			}
+			if clean {
+				ok = true
+			}
+		}
+		var lastLock, lastRLock token.Pos
+		for _, l := range p.locks {
+			if l < st && lastLock < l {
+				lastLock = l
+			}
+		}
+		for _, l := range p.rlocks {
+			if l < st && lastRLock < l {
+				lastRLock = l
+			}
+		}
+		if !ok || lastLock == 0 || lastLock < lastRLock {
+			return false
+		}
+	}
+	return 0 < len(p.stores)
+}
+
+// dispMutatesInOneSection: the function changes the method table and resets the cache inside one
+// critical section (no Unlock between the table writes and the reset).
+func dispMutatesInOneSection(fd *ast.FuncDecl, funcs dispFuncs) bool {
+	if fd == nil {
+		return false
+	}
+	p := dispScan(fd, funcs)
+	if len(p.tableWrites) == 0 || len(p.resets) == 0 {
+		return false
+	}
+	return dispInOneSection(p, p.tableWrites, p.resets)
+}
+
+// dispKeyWholeHierarchy: buildSpecKey ranges over the whole Hierarchy() of an argument (the
+// effective method depends on the class precedence list, not on the class name).
+func dispKeyWholeHierarchy(fd *ast.FuncDecl) bool {
+	if fd == nil {
+		return false
+	}
+	isHier := func(e ast.Expr) bool {
+		ce, ok := e.(*ast.CallExpr)
+		if !ok {
+			return false
+		}
+		sel, ok := ce.Fun.(*ast.SelectorExpr)
+		return ok && sel.Sel.Name == "Hierarchy"
+	}
+	ranged, indexed := false, false
+	hierVars := map[string]bool{}
+	ast.Inspect(fd.Body, func(n ast.Node) bool {
+		switch tn := n.(type) {
+		case *ast.AssignStmt:
+			for i, r := range tn.Rhs {
+				if isHier(r) && i < len(tn.Lhs) {
+					if id, ok := tn.Lhs[i].(*ast.Ident); ok {
+						hierVars[id.Name] = true
+					}
+				}
+			}
+		case *ast.RangeStmt:
+			if isHier(tn.X) {
+				ranged = true
+			}
+			if id, ok := tn.X.(*ast.Ident); ok && hierVars[id.Name] {
+				ranged = true
+			}
+		case *ast.IndexExpr:
+			if isHier(tn.X) {
+				indexed = true
+			}
+		}
+		return true
+	})
+	return ranged && !indexed
+}
+
 func genDispatchFacts(repo string) (string, error) {
 	funcs, err := dispLoad(repo)
 	if err != nil {
@@ -227,6 +486,11 @@ func genDispatchFacts(repo string) (string, error) {
 		{"addMethodRecomputesDefault", "Aux.AddMethod recomputes Aux.defaultCaller", dispResets(funcs["Aux.AddMethod"], funcs, "defaultCaller", true, 2)},
 		{"removeMethodRecomputesDefault", "RemoveMethod.Call recomputes Aux.defaultCaller", dispResets(funcs["RemoveMethod.Call"], funcs, "defaultCaller", true, 2)},
 		{"callStoresUnderProbedKey", "Aux.Call probes and fills the cache with one key built from all required arguments", dispCallKeyedDeep(funcs["Aux.Call"], funcs)},
+		{"cacheFilledUnderOneWriteLock", "the effective method is probed, built and stored in one critical section under the write lock", dispFillUnderOneLock(funcs)},
+		{"defmethodMutatesInOneSection", "addMethodCaller changes the method table and resets the cache in one critical section", dispMutatesInOneSection(funcs["addMethodCaller"], funcs)},
+		{"addMethodMutatesInOneSection", "Aux.AddMethod changes the method table and resets the cache in one critical section", dispMutatesInOneSection(funcs["Aux.AddMethod"], funcs)},
+		{"removeMethodMutatesInOneSection", "RemoveMethod.Call changes the method table and resets the cache in one critical section", dispMutatesInOneSection(funcs["RemoveMethod.Call"], funcs)},
+		{"specKeyIsWholeHierarchy", "buildSpecKey is made of the whole Hierarchy() of every required argument", dispKeyWholeHierarchy(funcs["buildSpecKey"])},
 	}
 	for _, f := range facts {
 		fmt.Fprintf(&sb, "/-- %s -/\ndef %s : Bool := %s\n\n", f.doc, f.name, b(f.val))
